@@ -74,6 +74,14 @@ def gen_push(rng, k, seed):
     sc.kv.update(policy=rng.choice(["queue", "queue", "burst"]), cap=rng.choice([1, 1, 2]), blocking=rng.choice([1, 1, 0]),
                  producers=rng.choice([1, 2, 3]), msgs=rng.choice([20, 40, 80]), pacing=rng.choice(["sleep:200", "sleep:20", "rand", "yield"]),
                  stop="drain")
+    if k % 3 == 2:
+        # stopped while SEVERAL producers are parked in send_blocking on a full bounded queue (slow consumer): every one of them
+        # is released by the stop and run() returns
+        sc.kv.update(policy="queue", cap=rng.choice([1, 2]), blocking=1, producers=rng.choice([2, 3, 4]), msgs=600, pacing="spin",
+                     stop=f"afterms:{rng.choice([3, 8, 15])}", delays=f"ps.eval.after_emit:{rng.choice([400, 1500])}:1")
+        sc.kv.pop("sources", None)
+        sc.kv.pop("caps", None)
+        sc.kv["parked_producers"] = 1
     sc.kv["delegate"] = "c16"
     return sc
 
@@ -112,6 +120,7 @@ def _check(sc, tr, rc):
         from . import c16
         V, C, verdict = c16.check(sc, tr, rc)
         return V, {"pushes_while_waiting_checked": C.get("sends_while_loop_waiting", 0), "push_deliveries_checked": C.get("deliveries_checked", 0),
+                   "stops_with_parked_blocking_producers": 1 if sc.kv.get("parked_producers") and tr is not None and tr.run is not None else 0,
                    "_known": []}, verdict
     V, C = [], {}
     kv = sc.kv
